@@ -1,3 +1,1483 @@
 //! Shared history machinery for the Core family (C01, C06, C07, C08, C14, C24, C26, C40, C42 …):
 //! operation histories over the real `Memvid` API on a temp .mv2 file, canonical observations,
 //! and the line protocol to the Lean Core model driver.  Owned by the Core agent.
+//!
+//! Layout
+//!   * `Op` (+ `PutSpec`, `UpdSpec`, `PayloadSpec`, `EmbSpec`) — one API call, serialisable (replays).
+//!   * `World` — the real handle on a tempdir file + the independent Rust reference model
+//!     (`RefModel`: what a client expects from its acknowledged calls) + bookkeeping of known tokens.
+//!   * `World::exec(op)` — runs the call on the real code, observes what only the implementation can
+//!     know (did the automatic checkpoint fire, footer position, WAL size, …) and returns the
+//!     acknowledgement, the driver request line (op + trace inputs) and the observation.
+//!   * `Obs` — structured observation of the real handle; `Obs::line()` prints it in EXACTLY the format
+//!     of the Lean model's `Core.obs`.
+//!   * `gen_op` — online generator (needs the current observation to aim ids / capacities).
+//!   * `run_history` — executes a history on both sides, compares after every op, evaluates oracles.
+//!   * `run_family` — the whole `main` of a Core-family bin: CLI, corpus, generation, shrinking,
+//!     replay files, summary.  A dependent property only supplies its `Oracle` closure and profile.
+#![allow(clippy::too_many_arguments)]
+
+use crate::*;
+use memvid_core::verif_hooks::{self, VerifIndexState, VerifState};
+use memvid_core::{
+    DoctorOptions, Frame, FrameRole, FrameStatus, Memvid, MemvidError, PutManyOpts, PutOptions, Ticket,
+};
+use serde::{Deserialize, Serialize};
+use std::collections::{BTreeMap, HashMap};
+use std::path::PathBuf;
+
+pub const WAL_OFFSET: u64 = 4096;
+
+// ---------------------------------------------------------------------------------------
+// payloads and embeddings: deterministic functions of a small spec
+
+#[derive(Clone, Copy, Debug, PartialEq, Eq, Serialize, Deserialize)]
+pub enum PayloadKind {
+    Empty,
+    /// arbitrary bytes with a high bit set somewhere (never valid UTF-8 for len >= 1)
+    Bin,
+    Zero,
+    /// pseudo-random bytes
+    Rand,
+    /// ASCII prose of exactly `len` characters
+    Ascii,
+    /// prose with multi-byte UTF-8 characters, exactly `len` characters
+    Utf8,
+    /// markdown table / code block text of about `len` characters (structural chunker)
+    Table,
+}
+
+#[derive(Clone, Debug, PartialEq, Eq, Serialize, Deserialize)]
+pub struct PayloadSpec {
+    pub kind: PayloadKind,
+    pub len: usize,
+    pub seed: u64,
+}
+
+const WORDS: &[&str] = &[
+    "alpha", "bravo", "charlie", "delta", "echo", "foxtrot", "golf", "hotel", "india", "juliet", "kilo", "lima",
+    "memory", "frame", "ledger", "orbit", "quartz", "river", "signal", "tundra", "umbra", "vector", "willow", "xenon",
+    "Alice", "works", "at", "Acme", "lives", "in", "Paris", "likes", "tea", "is", "the", "manager", "of", "Berlin",
+];
+const UWORDS: &[&str] = &["naïve", "café", "über", "日本語", "данные", "señor", "crème", "Ω", "façade", "🙂", "miljø", "żółć"];
+
+impl PayloadSpec {
+    pub fn new(kind: PayloadKind, len: usize, seed: u64) -> Self {
+        PayloadSpec { kind, len, seed }
+    }
+    pub fn bytes(&self) -> Vec<u8> {
+        let mut r = Rng::new(self.seed ^ 0x5eed_5eed);
+        match self.kind {
+            PayloadKind::Empty => vec![],
+            PayloadKind::Bin => {
+                let mut v = r.bytes(self.len);
+                if let Some(b) = v.first_mut() {
+                    *b = 0xff; // 0xff never occurs in UTF-8
+                }
+                v
+            }
+            PayloadKind::Zero => vec![0u8; self.len],
+            PayloadKind::Rand => {
+                let mut v = r.bytes(self.len);
+                if let Some(b) = v.last_mut() {
+                    *b = 0xfe;
+                }
+                v
+            }
+            PayloadKind::Ascii | PayloadKind::Utf8 => {
+                let mut s = String::new();
+                let mut n = 0usize;
+                let mut sentence = 0usize;
+                while n < self.len {
+                    let w: &str = if self.kind == PayloadKind::Utf8 && r.chance(1, 3) {
+                        *r.pick(UWORDS)
+                    } else {
+                        *r.pick(WORDS)
+                    };
+                    for c in w.chars() {
+                        if n < self.len {
+                            s.push(c);
+                            n += 1;
+                        }
+                    }
+                    if n < self.len {
+                        sentence += 1;
+                        let sep = if sentence % 9 == 0 { '.' } else { ' ' };
+                        s.push(sep);
+                        n += 1;
+                        if sep == '.' && n < self.len {
+                            s.push(if sentence % 27 == 0 { '\n' } else { ' ' });
+                            n += 1;
+                        }
+                    }
+                }
+                // never end in whitespace: normalisation would trim it and the length aim would be off
+                while s.ends_with(' ') || s.ends_with('\n') {
+                    s.pop();
+                    s.push('x');
+                }
+                s.into_bytes()
+            }
+            PayloadKind::Table => {
+                let mut s = String::from("# Report\n\n| name | city | score |\n|---|---|---|\n");
+                let mut i = 0;
+                while s.chars().count() < self.len {
+                    s.push_str(&format!("| {} | {} | {} |\n", r.pick(WORDS), r.pick(WORDS), r.below(1000)));
+                    i += 1;
+                    if i % 40 == 0 {
+                        s.push_str("\n```rust\nfn main() { println!(\"hello\"); }\n```\n\n| name | city | score |\n|---|---|---|\n");
+                    }
+                }
+                s.into_bytes()
+            }
+        }
+    }
+}
+
+#[derive(Clone, Debug, PartialEq, Eq, Serialize, Deserialize)]
+pub struct EmbSpec {
+    pub dim: usize,
+    pub seed: u64,
+}
+impl EmbSpec {
+    pub fn vector(&self) -> Vec<f32> {
+        let mut r = Rng::new(self.seed ^ 0xe0b0_e0b0);
+        (0..self.dim).map(|_| (r.below(2001) as f32 - 1000.0) / 256.0).collect()
+    }
+}
+
+/// token of a byte string: `E` when empty, else the first 16 hex digits of its blake3
+pub fn tok(b: &[u8]) -> String {
+    if b.is_empty() { "E".into() } else { b3short(b) }
+}
+/// token of an embedding = first 16 hex digits of blake3 of its f32 little-endian bytes
+pub fn emb_tok(v: &[f32]) -> String {
+    let mut bytes = Vec::with_capacity(v.len() * 4);
+    for x in v {
+        bytes.extend_from_slice(&x.to_le_bytes());
+    }
+    b3short(&bytes)
+}
+
+// ---------------------------------------------------------------------------------------
+// operations
+
+#[derive(Clone, Debug, PartialEq, Eq, Serialize, Deserialize)]
+pub struct PutSpec {
+    pub payload: PayloadSpec,
+    pub ts: i64,
+    pub uri: Option<String>,
+    pub kind: Option<String>,
+    pub track: Option<String>,
+    pub tags: Vec<String>,
+    pub labels: Vec<String>,
+    /// 0 = Document, 1 = DocumentChunk, 2 = ExtractedImage
+    pub role: u8,
+    pub emb: Option<EmbSpec>,
+    /// `Some` → `put_with_chunk_embeddings`
+    pub chunk_embs: Option<Vec<EmbSpec>>,
+    pub instant_index: bool,
+    pub enable_embedding: bool,
+    pub auto_tag: bool,
+    pub extract_dates: bool,
+    pub extract_triplets: bool,
+}
+
+impl PutSpec {
+    pub fn simple(payload: PayloadSpec, ts: i64) -> Self {
+        PutSpec {
+            payload, ts, uri: None, kind: None, track: None, tags: vec![], labels: vec![], role: 0, emb: None,
+            chunk_embs: None, instant_index: false, enable_embedding: false, auto_tag: false, extract_dates: false,
+            extract_triplets: false,
+        }
+    }
+}
+
+#[derive(Clone, Debug, PartialEq, Eq, Serialize, Deserialize, Default)]
+pub struct UpdSpec {
+    pub id: u64,
+    pub payload: Option<PayloadSpec>,
+    pub ts: Option<i64>,
+    pub uri: Option<String>,
+    pub kind: Option<String>,
+    pub track: Option<String>,
+    pub tags: Vec<String>,
+    pub labels: Vec<String>,
+    pub role: u8,
+    pub emb: Option<EmbSpec>,
+    pub instant_index: bool,
+    pub extract_triplets: bool,
+}
+
+#[derive(Clone, Debug, PartialEq, Eq, Serialize, Deserialize)]
+pub enum Op {
+    Put(PutSpec),
+    Update(UpdSpec),
+    Delete { id: u64 },
+    Commit,
+    /// drop the handle (commits when dirty) and open again
+    Reopen,
+    /// the process dies: no Drop, descriptors closed; the next open replays the WAL
+    Crash,
+    /// drop, open read-only, observe, drop, open exclusively again
+    ReadOnly,
+    BeginBatch { disable_auto_checkpoint: bool, skip_sync: bool, compression_level: i32, presize: u64 },
+    EndBatch,
+    CommitSkip,
+    Finalize,
+    Vacuum,
+    /// drop, `Memvid::doctor`, open
+    Doctor { vacuum: bool, rebuild_time: bool, rebuild_lex: bool, rebuild_vec: bool },
+    /// `apply_ticket`; `capacity` absolute bytes
+    Ticket { seq_no: i64, capacity: Option<u64>, issuer: String },
+}
+
+impl Op {
+    pub fn name(&self) -> &'static str {
+        match self {
+            Op::Put(_) => "put", Op::Update(_) => "update", Op::Delete { .. } => "delete", Op::Commit => "commit",
+            Op::Reopen => "reopen", Op::Crash => "crash", Op::ReadOnly => "readonly", Op::BeginBatch { .. } => "batch",
+            Op::EndBatch => "endbatch", Op::CommitSkip => "skip", Op::Finalize => "finalize", Op::Vacuum => "vacuum",
+            Op::Doctor { .. } => "doctor", Op::Ticket { .. } => "ticket",
+        }
+    }
+}
+
+#[derive(Clone, Debug, PartialEq, Eq)]
+pub enum Ack {
+    Ok,
+    Seq(u64),
+    /// (kind as the model prints it, detail)
+    Err(String, String),
+}
+impl Ack {
+    pub fn is_ok(&self) -> bool { !matches!(self, Ack::Err(..)) }
+    pub fn line(&self) -> String {
+        match self {
+            Ack::Ok => "ok".into(),
+            Ack::Seq(s) => format!("ok {s}"),
+            Ack::Err(k, _) => format!("err {k}"),
+        }
+    }
+}
+
+pub fn map_err(e: &MemvidError) -> (String, String) {
+    let detail = e.to_string();
+    let kind = match e {
+        MemvidError::CapacityExceeded { .. } => "capacity".to_string(),
+        MemvidError::VecDimensionMismatch { .. } => "dim-mismatch".into(),
+        MemvidError::FrameNotFound { .. } => "not-found".into(),
+        MemvidError::TicketRequired { .. } => "ticket-required".into(),
+        MemvidError::TicketSequence { .. } => "ticket-seq".into(),
+        MemvidError::InvalidFrame { reason, .. } => match *reason {
+            "frame is not active" => "inactive".into(),
+            "chunk manifest length mismatch" | "document chunk manifest missing children" => "canon-error".into(),
+            other => format!("invalid-frame:{}", other.replace(' ', "_")),
+        },
+        _ => format!("other:{}", detail.replace(' ', "_").chars().take(80).collect::<String>()),
+    };
+    (kind, detail)
+}
+
+// ---------------------------------------------------------------------------------------
+// observation of the real handle
+
+#[derive(Clone, Debug, PartialEq)]
+pub struct FrameObs {
+    pub id: u64,
+    pub uri: Option<String>,
+    pub status: char,
+    pub role: char,
+    pub parent: Option<u64>,
+    pub supersedes: Option<u64>,
+    pub superseded_by: Option<u64>,
+    pub ts: i64,
+    pub kind: Option<String>,
+    pub track: Option<String>,
+    pub tags: Vec<String>,
+    pub labels: Vec<String>,
+    pub chunk_index: Option<u32>,
+    pub chunk_count: Option<u32>,
+    pub manifest: Option<usize>,
+    /// token of the frame's own stored payload (canonical bytes)
+    pub content: String,
+    /// token of `frame_canonical_payload(id)`: `cat:…` for a chunked document whose concatenation is
+    /// a known one, `err` when the call fails
+    pub canon: String,
+    /// raw token of `frame_canonical_payload(id)` (blake3 prefix / `E` / `err`), before `cat:` mapping
+    pub canon_raw: String,
+    pub off: u64,
+    pub len: u64,
+    pub search_text: Option<String>,
+    pub title: Option<String>,
+}
+
+fn opt<T: std::fmt::Display>(o: &Option<T>) -> String {
+    match o { Some(x) => x.to_string(), None => "-".into() }
+}
+fn list(sep: &str, l: &[String]) -> String {
+    if l.is_empty() { "-".into() } else { l.join(sep) }
+}
+
+impl FrameObs {
+    pub fn line(&self) -> String {
+        [
+            self.id.to_string(), opt(&self.uri), self.status.to_string(), self.role.to_string(), opt(&self.parent),
+            opt(&self.supersedes), opt(&self.superseded_by), self.ts.to_string(), opt(&self.kind), opt(&self.track),
+            list("+", &self.tags), list("+", &self.labels), opt(&self.chunk_index), opt(&self.chunk_count),
+            opt(&self.manifest), self.content.clone(), self.canon.clone(),
+            (if self.len == 0 { 0 } else { self.off }).to_string(), self.len.to_string(),
+        ].join(",")
+    }
+    pub fn active(&self) -> bool { self.status == 'a' }
+}
+
+#[derive(Clone, Debug)]
+pub struct Obs {
+    pub frame_count: u64,
+    pub next_frame_id: u64,
+    pub pending_inserts: u64,
+    pub pending_records: u64,
+    pub seq: u64,
+    pub dirty: bool,
+    pub wal_size: u64,
+    pub payload_end: u64,
+    pub data_end: u64,
+    pub footer: u64,
+    pub capacity: u64,
+    pub vec_enabled: bool,
+    /// `(id, dim or "?" , token)`; None = no in-memory index
+    pub vec: Option<Vec<(u64, String, String)>>,
+    pub time: Option<Vec<(i64, u64)>>,
+    pub tantivy_dirty: bool,
+    pub queue: Vec<u64>,
+    pub cards: Vec<u64>,
+    pub enr_recs: Vec<u64>,
+    pub sketch: Vec<u64>,
+    pub batch: Option<bool>,
+    pub frames: Vec<FrameObs>,
+    pub state: VerifState,
+    pub index: VerifIndexState,
+}
+
+fn nums<T: std::fmt::Display>(l: &[T]) -> String {
+    if l.is_empty() { "-".into() } else { l.iter().map(|x| x.to_string()).collect::<Vec<_>>().join(",") }
+}
+
+impl Obs {
+    pub fn head(&self) -> String {
+        let vec = match &self.vec {
+            None => "none".to_string(),
+            Some(v) if v.is_empty() => "-".into(),
+            Some(v) => v.iter().map(|(i, d, t)| format!("{i}:{d}:{t}")).collect::<Vec<_>>().join(","),
+        };
+        let time = match &self.time {
+            None => "none".to_string(),
+            Some(v) if v.is_empty() => "-".into(),
+            Some(v) => v.iter().map(|(t, i)| format!("{t}:{i}")).collect::<Vec<_>>().join(","),
+        };
+        format!(
+            "fc={} nf={} pi={} pend={} seq={} dirty={} ws={} pe={} de={} ft={} cap={} ve={} vec={} time={} td={} q={} cards={} er={} sk={} batch={}",
+            self.frame_count, self.next_frame_id, self.pending_inserts, self.pending_records, self.seq,
+            self.dirty as u8, self.wal_size, self.payload_end, self.data_end, self.footer, self.capacity,
+            self.vec_enabled as u8, vec, time, self.tantivy_dirty as u8, nums(&self.queue), nums(&self.cards),
+            nums(&self.enr_recs), nums(&self.sketch),
+            match self.batch { None => "-", Some(true) => "1", Some(false) => "0" }
+        )
+    }
+    pub fn line(&self) -> String {
+        let frames = if self.frames.is_empty() { "-".to_string() } else {
+            self.frames.iter().map(|f| f.line()).collect::<Vec<_>>().join(";")
+        };
+        format!("{} | {}", self.head(), frames)
+    }
+}
+
+// ---------------------------------------------------------------------------------------
+// the independent reference model: what a client expects from its acknowledged calls
+
+#[derive(Clone, Debug, PartialEq)]
+pub struct RefFrame {
+    pub id: u64,
+    /// `None` = the default URI of the frame id
+    pub uri: Option<String>,
+    pub status: char,
+    pub role: char,
+    pub supersedes: Option<u64>,
+    pub superseded_by: Option<u64>,
+    pub ts: i64,
+    pub kind: Option<String>,
+    pub track: Option<String>,
+    pub tags: Vec<String>,
+    pub labels: Vec<String>,
+    pub chunk_index: Option<u32>,
+    pub chunk_count: Option<u32>,
+    /// for a chunk made by the chunker: the document it belongs to
+    pub doc: Option<u64>,
+    /// number of chunks the document was split into
+    pub n_chunks: usize,
+    /// token of the bytes a read of this frame is expected to return
+    pub content: String,
+    /// embedding the client attached (directly, per chunk or carried by an update)
+    pub emb: Option<String>,
+    /// index of the history step that created it
+    pub born_at: usize,
+}
+
+impl RefFrame {
+    pub fn uri_string(&self) -> String {
+        self.uri.clone().unwrap_or_else(|| format!("mv2://frames/{}", self.id))
+    }
+}
+
+#[derive(Clone, Debug, Default)]
+pub struct RefModel {
+    pub frames: Vec<RefFrame>,
+    /// acknowledged mutating calls so far
+    pub acked: usize,
+}
+
+impl RefModel {
+    pub fn next_id(&self) -> u64 { self.frames.len() as u64 }
+
+    /// acknowledged put: the document gets the next id, its chunks the ids after it
+    pub fn put(&mut self, step: usize, p: &PutSpec, bytes: &[u8], chunks: &Option<Vec<String>>) -> u64 {
+        self.acked += 1;
+        let id = self.next_id();
+        self.push_doc(step, id, p.uri.clone(), p.ts, p.kind.clone(), p.track.clone(), p.tags.clone(), p.labels.clone(),
+            p.role, None, bytes, chunks, p.emb.as_ref().map(|e| emb_tok(&e.vector())),
+            p.chunk_embs.as_ref().map(|v| v.iter().map(|e| emb_tok(&e.vector())).collect()));
+        id
+    }
+
+    fn push_doc(&mut self, step: usize, id: u64, uri: Option<String>, ts: i64, kind: Option<String>, track: Option<String>,
+                tags: Vec<String>, labels: Vec<String>, role: u8, supersedes: Option<u64>, bytes: &[u8],
+                chunks: &Option<Vec<String>>, emb: Option<String>, chunk_embs: Option<Vec<String>>) {
+        let role_c = match role { 1 => 'c', 2 => 'i', _ => 'd' };
+        let n_chunks = chunks.as_ref().map(|c| c.len()).unwrap_or(0);
+        let content = match chunks {
+            Some(cs) => tok(cs.concat().as_bytes()),
+            None => tok(bytes),
+        };
+        self.frames.push(RefFrame {
+            id, uri: uri.clone(), status: 'a', role: role_c, supersedes, superseded_by: None, ts, kind: kind.clone(),
+            track: track.clone(), tags: tags.clone(), labels: labels.clone(), chunk_index: None,
+            chunk_count: if n_chunks > 0 { Some(n_chunks as u32) } else { None }, doc: None, n_chunks, content,
+            emb, born_at: step,
+        });
+        if let Some(cs) = chunks {
+            for (i, c) in cs.iter().enumerate() {
+                let cid = self.next_id();
+                self.frames.push(RefFrame {
+                    id: cid, uri: uri.as_ref().map(|u| format!("{u}#page-{}", i + 1)), status: 'a', role: 'c',
+                    supersedes: None, superseded_by: None, ts, kind: kind.clone(), track: track.clone(),
+                    tags: tags.clone(), labels: labels.clone(), chunk_index: Some(i as u32),
+                    chunk_count: Some(n_chunks as u32), doc: Some(id), n_chunks: 0, content: tok(c.as_bytes()),
+                    emb: chunk_embs.as_ref().and_then(|v| v.get(i).cloned()), born_at: step,
+                });
+            }
+        }
+    }
+
+    /// acknowledged update: a new version gets the next id, the old one is superseded by it;
+    /// unspecified fields are inherited; without a payload the content stays what it was
+    pub fn update(&mut self, step: usize, u: &UpdSpec, bytes: Option<&[u8]>, chunks: &Option<Vec<String>>) -> Option<u64> {
+        self.acked += 1;
+        let old = self.frames.get(u.id as usize)?.clone();
+        let id = self.next_id();
+        let uri = u.uri.clone().or_else(|| Some(old.uri_string()));
+        let emb = u.emb.as_ref().map(|e| emb_tok(&e.vector())).or(old.emb.clone());
+        match bytes {
+            Some(b) => self.push_doc(step, id, uri, u.ts.unwrap_or(old.ts), u.kind.clone().or(old.kind.clone()),
+                u.track.clone().or(old.track.clone()), if u.tags.is_empty() { old.tags.clone() } else { u.tags.clone() },
+                if u.labels.is_empty() { old.labels.clone() } else { u.labels.clone() }, u.role, Some(u.id), b, chunks, emb, None),
+            None => {
+                self.push_doc(step, id, uri, u.ts.unwrap_or(old.ts), u.kind.clone().or(old.kind.clone()),
+                    u.track.clone().or(old.track.clone()), if u.tags.is_empty() { old.tags.clone() } else { u.tags.clone() },
+                    if u.labels.is_empty() { old.labels.clone() } else { u.labels.clone() }, u.role, Some(u.id), &[], &None, emb, None);
+                self.frames[id as usize].content = old.content.clone();
+            }
+        }
+        let o = &mut self.frames[u.id as usize];
+        o.status = 's';
+        o.superseded_by = Some(id);
+        Some(id)
+    }
+
+    pub fn delete(&mut self, id: u64) {
+        self.acked += 1;
+        if let Some(f) = self.frames.get_mut(id as usize) {
+            f.status = 'd';
+            f.superseded_by = None;
+        }
+    }
+
+    /// the bytes a read of frame `id` should return now: a chunked document reads as the
+    /// concatenation of its chunks as long as all of them are active; `None` = not determined
+    pub fn expected_read(&self, id: u64) -> Option<String> {
+        let f = self.frames.get(id as usize)?;
+        if f.n_chunks > 0 {
+            let kids: Vec<&RefFrame> = self.frames.iter().filter(|c| c.doc == Some(id)).collect();
+            if kids.iter().all(|c| c.status == 'a') { Some(f.content.clone()) } else { None }
+        } else {
+            Some(f.content.clone())
+        }
+    }
+}
+
+// ---------------------------------------------------------------------------------------
+// the world: real handle + reference + token bookkeeping
+
+pub struct World {
+    pub dir: tempfile::TempDir,
+    pub path: PathBuf,
+    pub mem: Option<Memvid>,
+    pub reference: RefModel,
+    /// blake3-prefix of a concatenation of chunk texts → `cat:t1+t2…`
+    pub cats: HashMap<String, String>,
+    /// embedding token → dimension
+    pub emb_dims: HashMap<String, usize>,
+    /// the batch options the harness passed (`disable_auto_checkpoint`), while a batch is active
+    pub batch: Option<(bool, i32)>,
+    pub step_no: usize,
+    /// observation of a read-only handle taken by the last `ReadOnly` op
+    pub last_ro: Option<Obs>,
+    /// what the last doctor run reported
+    pub last_doctor: Option<String>,
+    pub branches: Vec<String>,
+}
+
+pub struct Step {
+    pub op: Op,
+    pub ack: Ack,
+    /// request line for the model driver (op + trace inputs)
+    pub request: String,
+    pub obs: Obs,
+}
+
+fn rel(x: u64, base: u64) -> u64 { x.saturating_sub(base) }
+
+impl World {
+    pub fn create() -> Result<World, String> {
+        let dir = tempfile::Builder::new().prefix("mvh-hist-").tempdir().map_err(|e| e.to_string())?;
+        let path = dir.path().join("m.mv2");
+        let mem = Memvid::create(&path).map_err(|e| format!("create: {e}"))?;
+        Ok(World {
+            dir, path, mem: Some(mem), reference: RefModel::default(), cats: HashMap::new(), emb_dims: HashMap::new(),
+            batch: None, step_no: 0, last_ro: None, last_doctor: None, branches: vec![],
+        })
+    }
+
+    pub fn mem(&mut self) -> &mut Memvid { self.mem.as_mut().expect("handle open") }
+
+    fn base(st: &VerifState) -> u64 { st.hdr_wal_offset + st.hdr_wal_size }
+
+    pub fn observe_handle(&mut self, mem_in: Option<Memvid>) -> (Obs, Option<Memvid>) {
+        // observe either the world's own handle or a foreign (read-only) one
+        let foreign = mem_in.is_some();
+        let mut mem = match mem_in { Some(m) => m, None => self.mem.take().expect("handle open") };
+        let st = verif_hooks::verif_state(&mem);
+        let ix = verif_hooks::verif_index_state(&mem);
+        let base = Self::base(&st);
+        let raw: Vec<Frame> = verif_hooks::verif_frames(&mem);
+        let mut frames = Vec::with_capacity(raw.len());
+        for f in &raw {
+            let canon_raw = match mem.frame_canonical_payload(f.id) { Ok(b) => tok(&b), Err(_) => "err".to_string() };
+            let is_manifest_doc = f.role == FrameRole::Document && f.chunk_manifest.is_some();
+            let content = if is_manifest_doc {
+                if f.payload_length == 0 { "E".to_string() } else { "?".to_string() }
+            } else { canon_raw.clone() };
+            let canon = if is_manifest_doc {
+                self.cats.get(&canon_raw).cloned().unwrap_or_else(|| canon_raw.clone())
+            } else { canon_raw.clone() };
+            frames.push(FrameObs {
+                id: f.id, uri: f.uri.clone(),
+                status: match f.status { FrameStatus::Active => 'a', FrameStatus::Superseded => 's', FrameStatus::Deleted => 'd' },
+                role: match f.role { FrameRole::Document => 'd', FrameRole::DocumentChunk => 'c', FrameRole::ExtractedImage => 'i' },
+                parent: f.parent_id, supersedes: f.supersedes, superseded_by: f.superseded_by, ts: f.timestamp,
+                kind: f.kind.clone(), track: f.track.clone(), tags: f.tags.clone(), labels: f.labels.clone(),
+                chunk_index: f.chunk_index, chunk_count: f.chunk_count,
+                manifest: f.chunk_manifest.as_ref().map(|m| m.chunks.len()), content, canon, canon_raw,
+                off: rel(f.payload_offset, base), len: f.payload_length, search_text: f.search_text.clone(),
+                title: f.title.clone(),
+            });
+        }
+        let vec = if st.vec_index_kind == "none" { None } else {
+            Some(st.vec_entries.iter().map(|(id, h)| {
+                let t = h[..16].to_string();
+                let d = self.emb_dims.get(&t).map(|d| d.to_string()).unwrap_or_else(|| "?".into());
+                (*id, d, t)
+            }).collect())
+        };
+        let time = match &ix.time_entries { None => None, Some(Ok(v)) => Some(v.clone()), Some(Err(_)) => Some(vec![(i64::MIN, u64::MAX)]) };
+        let mut sketch = st.sketch_frame_ids.clone();
+        sketch.sort_unstable();
+        let mut cards = st.card_sources.clone();
+        cards.sort();
+        let obs = Obs {
+            frame_count: mem.frame_count() as u64, next_frame_id: mem.next_frame_id(),
+            pending_inserts: st.pending_frame_inserts, pending_records: st.wal_appends_since_checkpoint,
+            seq: st.wal_sequence, dirty: st.dirty, wal_size: st.hdr_wal_size, payload_end: rel(st.cached_payload_end, base),
+            data_end: rel(st.data_end, base), footer: rel(st.hdr_footer_offset, base), capacity: st.capacity_limit,
+            vec_enabled: st.vec_enabled, vec, time, tantivy_dirty: st.tantivy_dirty, queue: st.enrichment_queue.clone(),
+            cards: cards.iter().map(|c| c.1).collect(), enr_recs: st.enrichment_record_frames.clone(), sketch,
+            batch: if st.batch_active { self.batch.map(|b| b.0) } else { None }, frames, state: st, index: ix,
+        };
+        if foreign { (obs, Some(mem)) } else { self.mem = Some(mem); (obs, None) }
+    }
+
+    pub fn observe(&mut self) -> Obs { self.observe_handle(None).0 }
+
+    fn put_options(p: &PutSpec) -> PutOptions {
+        let mut o = PutOptions::default();
+        o.timestamp = Some(p.ts);
+        o.uri = p.uri.clone();
+        o.kind = p.kind.clone();
+        o.track = p.track.clone();
+        o.tags = p.tags.clone();
+        o.labels = p.labels.clone();
+        o.role = match p.role { 1 => FrameRole::DocumentChunk, 2 => FrameRole::ExtractedImage, _ => FrameRole::Document };
+        o.instant_index = p.instant_index;
+        o.enable_embedding = p.enable_embedding;
+        o.auto_tag = p.auto_tag;
+        o.extract_dates = p.extract_dates;
+        o.extract_triplets = p.extract_triplets;
+        o
+    }
+
+    fn level(&self) -> i32 { self.batch.map(|b| b.1).unwrap_or(3) }
+
+    fn stored_len(bytes: &[u8], level: i32) -> usize {
+        verif_hooks::prepare_canonical_payload(bytes, level).map(|x| x.0).unwrap_or(bytes.len())
+    }
+
+    fn emb_field(&mut self, e: &Option<EmbSpec>) -> String {
+        match e {
+            None => "-".into(),
+            Some(e) => {
+                let t = emb_tok(&e.vector());
+                self.emb_dims.insert(t.clone(), e.dim);
+                format!("{}:{}", e.dim, t)
+            }
+        }
+    }
+
+    /// `ct= len= plen= chunks=` for a payload, registering the concatenation token of a chunk plan
+    fn payload_fields(&mut self, bytes: &[u8], chunks: &Option<Vec<String>>, chunk_embs: &Option<Vec<EmbSpec>>) -> String {
+        let plen = Self::stored_len(bytes, self.level());
+        match chunks {
+            None => format!("ct={} len={} plen={} chunks=-", tok(bytes), plen, plen),
+            Some(cs) => {
+                let cat_key = tok(cs.concat().as_bytes());
+                let cat_val = format!("cat:{}", cs.iter().map(|c| tok(c.as_bytes())).collect::<Vec<_>>().join("+"));
+                self.cats.insert(cat_key, cat_val);
+                let mut items = vec![];
+                for (i, c) in cs.iter().enumerate() {
+                    let e = chunk_embs.as_ref().and_then(|v| v.get(i).cloned());
+                    let ef = match &e { None => "0:-".to_string(), Some(_) => self.emb_field(&e) };
+                    items.push(format!("{}:{}:{}", tok(c.as_bytes()), Self::stored_len(c.as_bytes(), 3), ef));
+                }
+                format!("ct=E len=0 plen={} chunks={}", plen, items.join(";"))
+            }
+        }
+    }
+
+    fn common_fields(ts: Option<i64>, uri: &Option<String>, kind: &Option<String>, track: &Option<String>, tags: &[String], labels: &[String], role: u8) -> String {
+        format!("ts={} uri={} kind={} track={} tags={} labels={} role={}",
+            opt(&ts), opt(uri), opt(kind), opt(track), list(",", tags), list(",", labels),
+            match role { 1 => "c", 2 => "i", _ => "d" })
+    }
+
+    /// run one op on the real handle; returns the step (ack, request line with trace inputs, observation)
+    pub fn exec(&mut self, op: &Op) -> Step {
+        self.step_no += 1;
+        let step_no = self.step_no;
+        let before = verif_hooks::verif_state(self.mem());
+        let base_before = Self::base(&before);
+        let (ack, request): (Ack, String) = match op {
+            Op::Put(p) => {
+                let bytes = p.payload.bytes();
+                let chunks = self.mem().preview_chunks(&bytes);
+                let fields = self.payload_fields(&bytes, &chunks, &p.chunk_embs);
+                let embf = self.emb_field(&p.emb);
+                let opts = Self::put_options(p);
+                let emb = p.emb.as_ref().map(|e| e.vector());
+                let mem = self.mem();
+                let r = if let Some(ce) = &p.chunk_embs {
+                    mem.put_with_chunk_embeddings(&bytes, emb, ce.iter().map(|e| e.vector()).collect(), opts)
+                } else if let Some(e) = emb {
+                    mem.put_with_embedding_and_options(&bytes, e, opts)
+                } else {
+                    mem.put_bytes_with_options(&bytes, opts)
+                };
+                let after = verif_hooks::verif_state(self.mem());
+                let ack = match &r { Ok(s) => Ack::Seq(*s), Err(e) => { let (k, d) = map_err(e); Ack::Err(k, d) } };
+                if ack.is_ok() { self.reference.put(step_no, p, &bytes, &chunks); }
+                let tr = Self::trace_fields(&before, &after, ack.is_ok(), true);
+                (ack, format!("put {} {} emb={} ii={} st=1 {}",
+                    Self::common_fields(Some(p.ts), &p.uri, &p.kind, &p.track, &p.tags, &p.labels, p.role), fields, embf,
+                    p.instant_index as u8, tr))
+            }
+            Op::Update(u) => {
+                let bytes = u.payload.as_ref().map(|p| p.bytes());
+                let chunks = match &bytes { Some(b) => self.mem().preview_chunks(b), None => None };
+                let fields = match &bytes { Some(b) => format!("pl=1 {}", self.payload_fields(b, &chunks, &None)), None => "pl=0".to_string() };
+                let embf = self.emb_field(&u.emb);
+                let mut o = PutOptions::default();
+                o.timestamp = u.ts; o.uri = u.uri.clone(); o.kind = u.kind.clone(); o.track = u.track.clone();
+                o.tags = u.tags.clone(); o.labels = u.labels.clone();
+                o.role = match u.role { 1 => FrameRole::DocumentChunk, 2 => FrameRole::ExtractedImage, _ => FrameRole::Document };
+                o.instant_index = u.instant_index; o.enable_embedding = false; o.auto_tag = false; o.extract_dates = false;
+                o.extract_triplets = u.extract_triplets;
+                let r = self.mem().update_frame(u.id, bytes.clone(), o, u.emb.as_ref().map(|e| e.vector()));
+                let after = verif_hooks::verif_state(self.mem());
+                let ack = match &r { Ok(s) => Ack::Seq(*s), Err(e) => { let (k, d) = map_err(e); Ack::Err(k, d) } };
+                if ack.is_ok() { self.reference.update(step_no, u, bytes.as_deref(), &chunks); }
+                let tr = Self::trace_fields(&before, &after, ack.is_ok(), true);
+                (ack, format!("update id={} {} {} emb={} ii={} st=1 {}", u.id,
+                    Self::common_fields(u.ts, &u.uri, &u.kind, &u.track, &u.tags, &u.labels, u.role), fields, embf,
+                    u.instant_index as u8, tr))
+            }
+            Op::Delete { id } => {
+                let r = self.mem().delete_frame(*id);
+                let after = verif_hooks::verif_state(self.mem());
+                let ack = match &r { Ok(s) => Ack::Seq(*s), Err(e) => { let (k, d) = map_err(e); Ack::Err(k, d) } };
+                if ack.is_ok() { self.reference.delete(*id); }
+                let tr = Self::trace_fields(&before, &after, ack.is_ok(), false);
+                (ack, format!("delete id={id} {tr}"))
+            }
+            Op::Commit => {
+                let r = self.mem().commit();
+                let after = verif_hooks::verif_state(self.mem());
+                (Self::unit_ack(r), format!("commit ft={}", rel(after.hdr_footer_offset, Self::base(&after))))
+            }
+            Op::Reopen => {
+                let ftd = self.drop_handle();
+                match Memvid::open(&self.path) {
+                    Ok(m) => {
+                        self.mem = Some(m);
+                        self.batch = None;
+                        let after = verif_hooks::verif_state(self.mem());
+                        (Ack::Ok, format!("reopen ftd={ftd} fto={}", rel(after.hdr_footer_offset, Self::base(&after))))
+                    }
+                    Err(e) => return self.dead_step(op, format!("open-failed: {e}")),
+                }
+            }
+            Op::Crash => {
+                // process death: the handle's destructor never runs, the kernel closes its descriptors
+                let mem = self.mem.take().expect("handle open");
+                let (_fd_file, fd_lock) = verif_hooks::verif_fds(&mem);
+                std::mem::forget(mem);
+                // what the kernel does when the process dies: the advisory lock of the open file
+                // description goes away (the leaked descriptors themselves are harmless)
+                unsafe { libc::flock(fd_lock, libc::LOCK_UN); }
+                match Memvid::open(&self.path) {
+                    Ok(m) => {
+                        self.mem = Some(m);
+                        self.batch = None;
+                        let after = verif_hooks::verif_state(self.mem());
+                        (Ack::Ok, format!("crash ft={}", rel(after.hdr_footer_offset, Self::base(&after))))
+                    }
+                    Err(e) => return self.dead_step(op, format!("open-after-crash-failed: {e}")),
+                }
+            }
+            Op::ReadOnly => {
+                let ftd = self.drop_handle();
+                match Memvid::open_read_only(&self.path) {
+                    Ok(ro) => {
+                        let (o, ro) = self.observe_handle(Some(ro));
+                        self.last_ro = Some(o);
+                        drop(ro);
+                    }
+                    Err(e) => return self.dead_step(op, format!("open-read-only-failed: {e}")),
+                }
+                match Memvid::open(&self.path) {
+                    Ok(m) => {
+                        self.mem = Some(m);
+                        self.batch = None;
+                        let after = verif_hooks::verif_state(self.mem());
+                        (Ack::Ok, format!("reopen ftd={ftd} fto={}", rel(after.hdr_footer_offset, Self::base(&after))))
+                    }
+                    Err(e) => return self.dead_step(op, format!("open-failed: {e}")),
+                }
+            }
+            Op::BeginBatch { disable_auto_checkpoint, skip_sync, compression_level, presize } => {
+                let mut o = PutManyOpts::default();
+                o.disable_auto_checkpoint = *disable_auto_checkpoint;
+                o.skip_sync = *skip_sync;
+                o.compression_level = *compression_level;
+                o.wal_pre_size_bytes = *presize;
+                let r = self.mem().begin_batch(o);
+                if r.is_ok() { self.batch = Some((*disable_auto_checkpoint, *compression_level)); }
+                let after = verif_hooks::verif_state(self.mem());
+                (Self::unit_ack(r), format!("batch dis={} ws={}", *disable_auto_checkpoint as u8, after.hdr_wal_size))
+            }
+            Op::EndBatch => {
+                let r = self.mem().end_batch();
+                if r.is_ok() { self.batch = None; }
+                (Self::unit_ack(r), "endbatch".into())
+            }
+            Op::CommitSkip => (Self::unit_ack(self.mem().commit_skip_indexes()), "skip".into()),
+            Op::Finalize => {
+                let r = self.mem().finalize_indexes();
+                let after = verif_hooks::verif_state(self.mem());
+                (Self::unit_ack(r), format!("finalize ft={}", rel(after.hdr_footer_offset, Self::base(&after))))
+            }
+            Op::Vacuum => {
+                let r = self.mem().vacuum();
+                let after = verif_hooks::verif_state(self.mem());
+                let ft = rel(after.hdr_footer_offset, Self::base(&after));
+                (Self::unit_ack(r), format!("vacuum ftc={ft} ftr={ft}"))
+            }
+            Op::Doctor { vacuum, rebuild_time, rebuild_lex, rebuild_vec } => {
+                let ftd = self.drop_handle();
+                let opts = DoctorOptions {
+                    rebuild_time_index: *rebuild_time, rebuild_lex_index: *rebuild_lex, rebuild_vec_index: *rebuild_vec,
+                    vacuum: *vacuum, dry_run: false, quiet: true,
+                };
+                let path = self.path.clone();
+                let rep = guarded(move || Memvid::doctor(&path, opts));
+                self.last_doctor = Some(match &rep {
+                    Ok(Ok(r)) => format!("{:?}", r.status),
+                    Ok(Err(e)) => format!("error: {e}"),
+                    Err(p) => format!("panic: {p}"),
+                });
+                match Memvid::open(&self.path) {
+                    Ok(m) => {
+                        self.mem = Some(m);
+                        self.batch = None;
+                        let after = verif_hooks::verif_state(self.mem());
+                        let ft = rel(after.hdr_footer_offset, Self::base(&after));
+                        (Ack::Ok, format!("doctor vac={} ftd={ftd} fta={ft} ftb={ft} fto={ft}", *vacuum as u8))
+                    }
+                    Err(e) => return self.dead_step(op, format!("open-after-doctor-failed: {e}")),
+                }
+            }
+            Op::Ticket { seq_no, capacity, issuer } => {
+                let mut t = Ticket::new(issuer.clone(), *seq_no);
+                if let Some(c) = capacity { t = t.capacity_bytes(*c); }
+                #[allow(deprecated)]
+                let r = self.mem().apply_ticket(t);
+                (Self::unit_ack(r), format!("ticket seq={} cap={} blank={} free={}", seq_no, capacity.unwrap_or(0),
+                    issuer.trim().is_empty() as u8, (issuer == "free-tier") as u8))
+            }
+        };
+        let _ = base_before;
+        let obs = self.observe();
+        Step { op: op.clone(), ack, request, obs }
+    }
+
+    fn unit_ack(r: memvid_core::Result<()>) -> Ack {
+        match r { Ok(()) => Ack::Ok, Err(e) => { let (k, d) = map_err(&e); Ack::Err(if k.starts_with("other") || k.starts_with("invalid-frame") { format!("commit-failed:{k}") } else { k }, d) } }
+    }
+
+    /// trace inputs observed on the real handle: ac (auto checkpoint fired), ft, ws, q, nc
+    fn trace_fields(before: &VerifState, after: &VerifState, ok: bool, is_put: bool) -> String {
+        let ac = ok && !after.dirty;
+        let _ = is_put;
+        let q = after.enrichment_queue.len() > before.enrichment_queue.len();
+        let nc = after.card_sources.len().saturating_sub(before.card_sources.len());
+        format!("q={} nc={} ac={} ft={} ws={}", q as u8, nc, ac as u8,
+            rel(after.hdr_footer_offset, Self::base(after)), after.hdr_wal_size)
+    }
+
+    /// drop the handle; returns the footer (relative) the drop's commit left, read back from the header
+    fn drop_handle(&mut self) -> u64 {
+        self.mem = None; // Drop commits when dirty
+        let mut buf = [0u8; 4096];
+        let ok = std::fs::File::open(&self.path).and_then(|mut f| { use std::io::Read; f.read_exact(&mut buf) }).is_ok();
+        if !ok { return 0; }
+        match memvid_core::io::header::HeaderCodec::decode(&buf) {
+            Ok(h) => rel(h.footer_offset, h.wal_offset + h.wal_size),
+            Err(_) => 0,
+        }
+    }
+
+    fn dead_step(&mut self, op: &Op, why: String) -> Step {
+        // the file can no longer be opened: fabricate an empty observation; the caller reports it
+        let w = World::create().expect("scratch world");
+        let mut w = w;
+        let mut obs = w.observe();
+        obs.frames.clear();
+        Step { op: op.clone(), ack: Ack::Err("dead".into(), why), request: "dead".into(), obs }
+    }
+}
+
+// ---------------------------------------------------------------------------------------
+// generator
+
+#[derive(Clone, Debug)]
+pub struct GenProfile {
+    /// relative weights
+    pub w_put: u64,
+    pub w_update: u64,
+    pub w_delete: u64,
+    pub w_commit: u64,
+    pub w_reopen: u64,
+    pub w_crash: u64,
+    pub w_readonly: u64,
+    pub w_batch: u64,
+    pub w_skip: u64,
+    pub w_finalize: u64,
+    pub w_vacuum: u64,
+    pub w_doctor: u64,
+    pub w_ticket: u64,
+    /// probability (percent) that a put carries an embedding
+    pub emb_percent: u64,
+    /// fixed embedding dimension of a history is drawn from 1..=8; percent of puts with a WRONG dimension
+    pub wrong_dim_percent: u64,
+    pub triplets: bool,
+    pub instant_index_percent: u64,
+    pub auto_tag: bool,
+    /// ids of update/delete aim at existing frames with this probability (percent)
+    pub valid_target_percent: u64,
+    /// number of short histories and their length range; long WAL-filling histories
+    pub n_short: usize,
+    pub short_len: (usize, usize),
+    pub n_long: usize,
+    pub long_len: (usize, usize),
+    /// fixed histories that run first
+    pub corpus: Vec<(String, Vec<Op>)>,
+}
+
+impl GenProfile {
+    pub fn standard(thorough: bool) -> Self {
+        GenProfile {
+            w_put: 46, w_update: 12, w_delete: 10, w_commit: 8, w_reopen: 5, w_crash: 3, w_readonly: 1, w_batch: 3,
+            w_skip: 2, w_finalize: 2, w_vacuum: 2, w_doctor: 1, w_ticket: 1, emb_percent: 25, wrong_dim_percent: 4,
+            triplets: false, instant_index_percent: 30, auto_tag: false, valid_target_percent: 85,
+            n_short: if thorough { 400 } else { 36 }, short_len: (12, 60),
+            n_long: if thorough { 30 } else { 4 }, long_len: (if thorough { 250 } else { 110 }, if thorough { 400 } else { 170 }),
+            corpus: vec![],
+        }
+    }
+}
+
+/// mutable generator state of one history
+pub struct GenState {
+    pub dim: usize,
+    pub ts: i64,
+    pub long: bool,
+    pub uris: Vec<String>,
+    pub ticket_seq: i64,
+    pub in_batch: bool,
+    pub n: u64,
+}
+
+impl GenState {
+    pub fn new(rng: &mut Rng, long: bool) -> Self {
+        GenState { dim: rng.usize(1, 8), ts: rng.i64(1_600_000_000, 1_700_000_000), long, uris: vec![], ticket_seq: 0, in_batch: false, n: 0 }
+    }
+}
+
+pub fn gen_payload(rng: &mut Rng, long: bool) -> PayloadSpec {
+    let seed = rng.u64();
+    let r = rng.below(100);
+    let (kind, len) = if long {
+        // records of ~300-900 bytes so that the 64 KiB WAL crosses 75 % and wraps; now and then one
+        // larger than the region (forces grow_wal_region)
+        match r {
+            0..=54 => (PayloadKind::Rand, rng.usize(250, 850)),
+            55..=69 => (PayloadKind::Bin, rng.usize(1, 16)),
+            70..=84 => (PayloadKind::Ascii, rng.usize(200, 2300)),
+            85..=91 => (PayloadKind::Ascii, rng.usize(2390, 2410)),
+            92..=95 => (PayloadKind::Zero, rng.usize(1, 5000)),
+            96..=97 => (PayloadKind::Rand, rng.usize(66_000, 140_000)),
+            _ => (PayloadKind::Empty, 0),
+        }
+    } else {
+        match r {
+            0..=5 => (PayloadKind::Empty, 0),
+            6..=17 => (PayloadKind::Bin, rng.usize(1, 16)),
+            18..=23 => (PayloadKind::Zero, rng.usize(1, 3000)),
+            24..=38 => (PayloadKind::Rand, rng.usize(17, 4000)),
+            39..=55 => (PayloadKind::Ascii, rng.usize(1, 600)),
+            56..=63 => (PayloadKind::Ascii, *rng.pick(&[2398usize, 2399, 2400, 2401, 2402])),
+            64..=72 => (PayloadKind::Ascii, rng.usize(2400, 9000)),
+            73..=82 => (PayloadKind::Utf8, rng.usize(1, 500)),
+            83..=88 => (PayloadKind::Utf8, rng.usize(2380, 2420)),
+            89..=92 => (PayloadKind::Utf8, rng.usize(2400, 6000)),
+            93..=96 => (PayloadKind::Table, rng.usize(300, 5000)),
+            _ => (PayloadKind::Rand, rng.usize(66_000, 100_000)),
+        }
+    };
+    PayloadSpec { kind, len, seed }
+}
+
+fn gen_word(rng: &mut Rng) -> String {
+    let w: &str = *rng.pick(&["news", "note", "log", "doc", "mail", "wiki", "alpha", "beta", "gamma", "red", "blue"]);
+    w.to_string()
+}
+
+pub fn gen_put(rng: &mut Rng, prof: &GenProfile, gs: &mut GenState) -> PutSpec {
+    gs.n += 1;
+    gs.ts += rng.i64(-50, 400);
+    let payload = gen_payload(rng, gs.long);
+    let uri = if rng.chance(55, 100) {
+        let u = if !gs.uris.is_empty() && rng.chance(20, 100) { rng.pick(&gs.uris).clone() }
+                else { format!("mv2://{}/{}-{}.txt", gen_word(rng), gen_word(rng), gs.n) };
+        gs.uris.push(u.clone());
+        Some(u)
+    } else { None };
+    let mut p = PutSpec::simple(payload, gs.ts);
+    p.uri = uri;
+    if rng.chance(30, 100) { p.kind = Some(gen_word(rng)); }
+    if rng.chance(30, 100) { p.track = Some(gen_word(rng)); }
+    if rng.chance(35, 100) { p.tags = (0..rng.usize(1, 3)).map(|_| gen_word(rng)).collect(); p.tags.dedup(); }
+    if rng.chance(25, 100) { p.labels = (0..rng.usize(1, 2)).map(|_| gen_word(rng)).collect(); p.labels.dedup(); }
+    p.role = match rng.below(100) { 0..=2 => 2, 3..=4 => 1, _ => 0 };
+    if rng.chance(prof.emb_percent, 100) {
+        let dim = if rng.chance(prof.wrong_dim_percent, 100) { gs.dim % 8 + 1 } else { gs.dim };
+        p.emb = Some(EmbSpec { dim, seed: rng.u64() });
+        if rng.chance(40, 100) {
+            let n = rng.usize(0, 4);
+            p.chunk_embs = Some((0..n).map(|_| EmbSpec { dim, seed: rng.u64() }).collect());
+            if rng.chance(30, 100) { p.emb = None; }
+        }
+    }
+    p.instant_index = rng.chance(prof.instant_index_percent, 100);
+    p.auto_tag = prof.auto_tag;
+    p.extract_dates = prof.auto_tag;
+    p.extract_triplets = prof.triplets;
+    p
+}
+
+fn pick_target(rng: &mut Rng, prof: &GenProfile, obs: &Obs) -> u64 {
+    let n = obs.frame_count;
+    if n > 0 && rng.chance(prof.valid_target_percent, 100) {
+        // prefer active frames
+        let act: Vec<u64> = obs.frames.iter().filter(|f| f.active()).map(|f| f.id).collect();
+        if !act.is_empty() && rng.chance(85, 100) { *rng.pick(&act) } else { rng.below(n) }
+    } else {
+        n + rng.below(3)
+    }
+}
+
+pub fn gen_op(rng: &mut Rng, prof: &GenProfile, gs: &mut GenState, obs: &Obs) -> Op {
+    let weights = [
+        prof.w_put, prof.w_update, prof.w_delete, prof.w_commit, prof.w_reopen, prof.w_crash, prof.w_readonly,
+        prof.w_batch, prof.w_skip, prof.w_finalize, prof.w_vacuum, prof.w_doctor, prof.w_ticket,
+    ];
+    let total: u64 = weights.iter().sum();
+    let mut r = rng.below(total.max(1));
+    let mut which = 0;
+    for (i, w) in weights.iter().enumerate() {
+        if r < *w { which = i; break; }
+        r -= *w;
+    }
+    match which {
+        0 => Op::Put(gen_put(rng, prof, gs)),
+        1 => {
+            let id = pick_target(rng, prof, obs);
+            let mut u = UpdSpec { id, ..Default::default() };
+            if rng.chance(55, 100) { u.payload = Some(gen_payload(rng, false)); }
+            if rng.chance(25, 100) { gs.ts += 7; u.ts = Some(gs.ts); }
+            if rng.chance(20, 100) { u.uri = Some(format!("mv2://upd/{}-{}.md", gen_word(rng), rng.below(1000))); }
+            if rng.chance(20, 100) { u.kind = Some(gen_word(rng)); }
+            if rng.chance(20, 100) { u.track = Some(gen_word(rng)); }
+            if rng.chance(25, 100) { u.tags = vec![gen_word(rng)]; }
+            if rng.chance(15, 100) { u.labels = vec![gen_word(rng)]; }
+            if rng.chance(prof.emb_percent / 2, 100) { u.emb = Some(EmbSpec { dim: gs.dim, seed: rng.u64() }); }
+            u.instant_index = rng.chance(prof.instant_index_percent, 100);
+            u.extract_triplets = prof.triplets;
+            Op::Update(u)
+        }
+        2 => Op::Delete { id: pick_target(rng, prof, obs) },
+        3 => Op::Commit,
+        4 => Op::Reopen,
+        5 => Op::Crash,
+        6 => Op::ReadOnly,
+        7 => {
+            if gs.in_batch { gs.in_batch = false; Op::EndBatch } else {
+                gs.in_batch = true;
+                Op::BeginBatch {
+                    disable_auto_checkpoint: rng.chance(70, 100), skip_sync: rng.bool(),
+                    compression_level: *rng.pick(&[0, 1, 3, 3, 9]),
+                    presize: if rng.chance(25, 100) { *rng.pick(&[0u64, 100_000, 131_072, 200_000]) } else { 0 },
+                }
+            }
+        }
+        8 => Op::CommitSkip,
+        9 => Op::Finalize,
+        10 => Op::Vacuum,
+        11 => Op::Doctor { vacuum: rng.chance(40, 100), rebuild_time: rng.bool(), rebuild_lex: rng.bool(), rebuild_vec: rng.bool() },
+        _ => {
+            gs.ticket_seq += rng.i64(0, 2);
+            let base = WAL_OFFSET + obs.wal_size;
+            let cap = match rng.below(4) {
+                0 => None,
+                1 => Some(base + obs.payload_end + rng.below(3000)),
+                2 => Some(base + obs.payload_end + rng.below(200_000)),
+                _ => Some(1 << 30),
+            };
+            Op::Ticket { seq_no: gs.ticket_seq, capacity: cap, issuer: (*rng.pick(&["verif", "free-tier", "", "acme"])).to_string() }
+        }
+    }
+}
+
+// ---------------------------------------------------------------------------------------
+// running a history on both sides
+
+/// what a property oracle sees after every op
+pub struct StepView<'a> {
+    pub index: usize,
+    pub op: &'a Op,
+    pub ack: &'a Ack,
+    /// observation before / after the op
+    pub before: &'a Obs,
+    pub after: &'a Obs,
+    /// the independent reference model AFTER this op (it already contains the op when acknowledged)
+    pub reference: &'a RefModel,
+    /// reference BEFORE the op
+    pub reference_before: &'a RefModel,
+    /// the world (real handle, paths, last read-only observation, last doctor status): an oracle may
+    /// call read APIs (search, timeline, stats, …) on `world.mem()`
+    pub world: &'a mut World,
+    /// the model's answer / observation for this step (None when running without a driver)
+    pub model_ack: Option<&'a str>,
+    pub model_obs: Option<&'a str>,
+}
+
+/// property oracle: `Some((signature, what))` when the implementation violates the property at this step
+pub type Oracle<'o> = dyn FnMut(&mut StepView) -> Option<(String, String)> + 'o;
+
+#[derive(Default)]
+pub struct Outcome {
+    pub ops: Vec<Op>,
+    pub trace: Vec<String>,
+    /// (signature, what, step index, model predicted the same observation)
+    pub oracle: Option<(String, String, usize, bool)>,
+    /// (what, model, impl)
+    pub disagree: Option<(String, String, String)>,
+    /// harness-level failure (file no longer opens, panic in the implementation …)
+    pub dead: Option<String>,
+    pub branches: Vec<String>,
+    pub acked_mutations: usize,
+    pub final_frames: usize,
+}
+
+pub enum Source<'a> {
+    Fixed(&'a [Op]),
+    Gen { rng: &'a mut Rng, prof: &'a GenProfile, len: usize, long: bool },
+}
+
+fn first_diff(a: &str, b: &str) -> String {
+    // the first differing space- or ';'-separated token, with a little context
+    let ta: Vec<&str> = a.split(|c| c == ' ' || c == ';').collect();
+    let tb: Vec<&str> = b.split(|c| c == ' ' || c == ';').collect();
+    for i in 0..ta.len().max(tb.len()) {
+        let x = ta.get(i).copied().unwrap_or("<missing>");
+        let y = tb.get(i).copied().unwrap_or("<missing>");
+        if x != y { return format!("token {i}: model `{x}` vs impl `{y}`"); }
+    }
+    "equal".into()
+}
+
+pub fn branch_tags(step: &Step, before: &Obs, out: &mut Vec<String>) {
+    let o = &step.obs;
+    out.push(format!("op-{}", step.op.name()));
+    if let Ack::Err(k, _) = &step.ack { out.push(format!("reject-{}", k.split(':').next().unwrap_or(k))); }
+    if matches!(step.op, Op::Put(_) | Op::Update(_) | Op::Delete { .. }) && step.ack.is_ok() && !o.dirty { out.push("auto-commit".into()); }
+    if o.wal_size > before.wal_size { out.push("wal-grow".into()); }
+    if o.frame_count > before.frame_count + 1 && matches!(step.op, Op::Put(_)) { out.push("chunked-put-committed".into()); }
+    if let Op::Put(p) = &step.op { if step.ack.is_ok() && o.next_frame_id > before.next_frame_id + 1 { out.push("chunked-put".into()); let _ = p; } }
+    if let Op::Update(u) = &step.op { if step.ack.is_ok() { out.push(if u.payload.is_some() { "update-payload".into() } else { "update-reuse".into() }); } }
+    if matches!(step.op, Op::Crash) && before.pending_records > 0 { out.push("wal-replay-on-open".into()); }
+    if matches!(step.op, Op::Reopen) && before.dirty { out.push("drop-commit".into()); }
+}
+
+/// run one history; `drv = None` → implementation + oracle only
+pub fn run_history(src: Source, mut drv: Option<&mut Driver>, oracle: &mut Oracle, verbose: bool) -> Outcome {
+    let mut out = Outcome::default();
+    let mut world = match World::create() { Ok(w) => w, Err(e) => { out.dead = Some(e); return out; } };
+    if let Some(d) = drv.as_deref_mut() {
+        let a = d.ask("create");
+        if a != "ok" { out.disagree = Some(("create".into(), a, "ok".into())); return out; }
+    }
+    let mut before = world.observe();
+    if let Some(d) = drv.as_deref_mut() {
+        let m = d.ask("obs");
+        let i = before.line();
+        if m != i { out.disagree = Some((format!("after create: {}", first_diff(&m, &i)), m, i)); return out; }
+    }
+    let (fixed, mut genr): (Option<&[Op]>, Option<(&mut Rng, &GenProfile, usize, GenState)>) = match src {
+        Source::Fixed(ops) => (Some(ops), None),
+        Source::Gen { rng, prof, len, long } => { let gs = GenState::new(rng, long); (None, Some((rng, prof, len, gs))) }
+    };
+    let n = match (&fixed, &genr) { (Some(o), _) => o.len(), (_, Some(g)) => g.2, _ => 0 };
+    for i in 0..n {
+        let op: Op = match (&fixed, genr.as_mut()) {
+            (Some(ops), _) => ops[i].clone(),
+            (_, Some((rng, prof, len, gs))) => {
+                // every generated history ends by making everything durable and visible
+                if i + 3 == *len { Op::Commit } else if i + 2 == *len { Op::Reopen } else if i + 1 == *len { Op::ReadOnly }
+                else { gen_op(rng, prof, gs, &before) }
+            }
+            _ => unreachable!(),
+        };
+        let ref_before = world.reference.clone();
+        let step = match guarded(std::panic::AssertUnwindSafe(|| world.exec(&op))) {
+            Ok(s) => s,
+            Err(p) => { out.ops.push(op.clone()); out.dead = Some(format!("op {i} {}: panic in implementation: {p}", op.name())); return out; }
+        };
+        out.ops.push(op.clone());
+        if let Ack::Err(k, d) = &step.ack { if k == "dead" { out.dead = Some(format!("op {i} {}: {d}", op.name())); return out; } }
+        branch_tags(&step, &before, &mut out.branches);
+        let impl_ack = step.ack.line();
+        let impl_obs = step.obs.line();
+        let (model_ack, model_obs) = match drv.as_deref_mut() {
+            Some(d) => { let a = d.ask(&step.request); let o = d.ask("obs"); (Some(a), Some(o)) }
+            None => (None, None),
+        };
+        if verbose {
+            println!("--- op {i}: {:?}", op);
+            println!("    request: {}", step.request);
+            println!("    impl : {} | {}", impl_ack, step.obs.head());
+            if let (Some(a), Some(o)) = (&model_ack, &model_obs) { println!("    model: {} | {}", a, o.split(" | ").next().unwrap_or("")); }
+            if let Ack::Err(_, d) = &step.ack { println!("    impl error detail: {d}"); }
+        }
+        out.trace.push(format!("{} -> {}", step.request.chars().take(120).collect::<String>(), impl_ack));
+        let mut model_same = true;
+        if let (Some(a), Some(o)) = (&model_ack, &model_obs) {
+            if *a != impl_ack {
+                model_same = false;
+                if out.disagree.is_none() { out.disagree = Some((format!("op {i} `{}` answer", op.name()), a.clone(), format!("{impl_ack} ({})", match &step.ack { Ack::Err(_, d) => d.as_str(), _ => "" }))); }
+            } else if *o != impl_obs {
+                model_same = false;
+                if out.disagree.is_none() { out.disagree = Some((format!("op {i} `{}` observation: {}", op.name(), first_diff(o, &impl_obs)), o.clone(), impl_obs.clone())); }
+            }
+        }
+        if step.ack.is_ok() && matches!(op, Op::Put(_) | Op::Update(_) | Op::Delete { .. }) { out.acked_mutations += 1; }
+        // property oracle on the implementation's own outputs
+        if out.oracle.is_none() {
+            let reference = world.reference.clone();
+            let mut view = StepView {
+                index: i, op: &op, ack: &step.ack, before: &before, after: &step.obs, reference: &reference,
+                reference_before: &ref_before, world: &mut world, model_ack: model_ack.as_deref(), model_obs: model_obs.as_deref(),
+            };
+            if let Some((sig, what)) = oracle(&mut view) {
+                if verbose { println!("    ORACLE {sig}: {what}"); }
+                out.oracle = Some((sig, format!("op {i} ({}): {what}", op.name()), i, model_same));
+            }
+        }
+        out.final_frames = step.obs.frames.len();
+        before = step.obs;
+        if out.oracle.is_some() || out.disagree.is_some() { break; }
+    }
+    out
+}
+
+// ---------------------------------------------------------------------------------------
+// oracles shared by the family
+
+/// immutable identity of a committed frame (what must never change once the id is assigned)
+pub fn identity_of(f: &FrameObs) -> String {
+    format!("{},{},{},{},{},{},{},{},{},{},{},{},{}", f.id, opt(&f.uri), f.role, opt(&f.supersedes), f.ts, opt(&f.kind),
+        opt(&f.track), list("+", &f.tags), list("+", &f.labels), opt(&f.chunk_index), opt(&f.chunk_count), opt(&f.manifest), f.content)
+}
+
+/// compare committed frame `f` with what the reference expects of that id; `quiescent` = every
+/// acknowledged call has been applied (status / superseded_by / content are final)
+pub fn frame_vs_reference(f: &FrameObs, r: &RefFrame, refm: &RefModel, quiescent: bool) -> Option<(String, String)> {
+    let mut bad: Vec<String> = vec![];
+    if f.uri.as_deref() != Some(r.uri_string().as_str()) { bad.push(format!("uri {:?} expected {:?}", f.uri, r.uri_string())); }
+    if f.role != r.role { bad.push(format!("role {} expected {}", f.role, r.role)); }
+    if f.ts != r.ts { bad.push(format!("ts {} expected {}", f.ts, r.ts)); }
+    if f.kind != r.kind { bad.push(format!("kind {:?} expected {:?}", f.kind, r.kind)); }
+    if f.track != r.track { bad.push(format!("track {:?} expected {:?}", f.track, r.track)); }
+    if f.tags != r.tags { bad.push(format!("tags {:?} expected {:?}", f.tags, r.tags)); }
+    if f.labels != r.labels { bad.push(format!("labels {:?} expected {:?}", f.labels, r.labels)); }
+    if f.supersedes != r.supersedes { bad.push(format!("supersedes {:?} expected {:?}", f.supersedes, r.supersedes)); }
+    if f.chunk_index != r.chunk_index { bad.push(format!("chunk_index {:?} expected {:?}", f.chunk_index, r.chunk_index)); }
+    if f.chunk_count != r.chunk_count { bad.push(format!("chunk_count {:?} expected {:?}", f.chunk_count, r.chunk_count)); }
+    if r.doc.is_some() && f.parent != r.doc { bad.push(format!("parent {:?} expected {:?}", f.parent, r.doc)); }
+    if !bad.is_empty() { return Some(("frame-metadata-differs-from-acknowledged-call".into(), format!("frame {}: {}", f.id, bad.join("; ")))); }
+    if quiescent {
+        if f.status != r.status || f.superseded_by != r.superseded_by {
+            return Some(("frame-status-differs-from-acknowledged-calls".into(),
+                format!("frame {}: status {} superseded_by {:?}, expected {} {:?}", f.id, f.status, f.superseded_by, r.status, r.superseded_by)));
+        }
+        if let Some(exp) = refm.expected_read(f.id) {
+            if f.canon_raw != exp && !(f.status != 'a' && f.canon_raw == "err") {
+                return Some(("frame-content-differs-from-acknowledged-call".into(),
+                    format!("frame {}: canonical payload token {} expected {}", f.id, f.canon_raw, exp)));
+            }
+        }
+    }
+    None
+}
+
+/// C01 oracle: the committed frame table is a prefix of what the acknowledged calls predict, and
+/// equals it (ids, URIs, status, content, metadata) whenever nothing is pending
+pub fn oracle_c01(v: &mut StepView) -> Option<(String, String)> {
+    let obs = v.after;
+    let refm = v.reference;
+    if obs.frames.len() > refm.frames.len() {
+        return Some(("more-frames-than-acknowledged-inserts".into(), format!("{} committed frames, {} acknowledged inserts", obs.frames.len(), refm.frames.len())));
+    }
+    let quiescent = obs.pending_inserts == 0 && !obs.dirty;
+    if quiescent && obs.frames.len() != refm.frames.len() {
+        return Some(("acknowledged-insert-lost".into(), format!("{} committed frames after everything was committed, {} acknowledged inserts", obs.frames.len(), refm.frames.len())));
+    }
+    for (f, r) in obs.frames.iter().zip(refm.frames.iter()) {
+        if f.id != r.id { return Some(("frame-id-not-its-position".into(), format!("frame at position {} has id {}", r.id, f.id))); }
+        if let Some(x) = frame_vs_reference(f, r, refm, quiescent) { return Some(x); }
+    }
+    // a read-only handle opened after a drop sees exactly the same table
+    if matches!(v.op, Op::ReadOnly) {
+        if let Some(ro) = &v.world.last_ro {
+            let a: Vec<String> = ro.frames.iter().map(|f| f.line()).collect();
+            let b: Vec<String> = obs.frames.iter().map(|f| f.line()).collect();
+            if a != b { return Some(("read-only-view-differs".into(), format!("read-only handle saw {} frames, writer {}", a.len(), b.len()))); }
+        }
+    }
+    None
+}
+
+/// C06 oracle: ids dense and in put order (chunks directly after their document), next_frame_id
+/// predicts the next id, an assigned id keeps naming the same frame
+pub fn oracle_c06(v: &mut StepView) -> Option<(String, String)> {
+    let obs = v.after;
+    for (i, f) in obs.frames.iter().enumerate() {
+        if f.id != i as u64 { return Some(("ids-not-dense".into(), format!("frame at position {i} has id {}", f.id))); }
+    }
+    // next_frame_id() before a put = the id the document gets
+    if let (Op::Put(_), true) = (v.op, v.ack.is_ok()) {
+        let predicted = v.before.next_frame_id;
+        let assigned = v.reference_before.next_id();
+        if predicted != assigned {
+            return Some(("next-frame-id-mispredicts".into(), format!("next_frame_id() = {predicted} before the put, the document is insert number {assigned}")));
+        }
+    }
+    if obs.next_frame_id != v.reference.next_id() && !matches!(v.op, Op::Crash) {
+        return Some(("next-frame-id-mispredicts".into(), format!("next_frame_id() = {} after the op, {} inserts acknowledged", obs.next_frame_id, v.reference.next_id())));
+    }
+    // stability: every id that existed before still names the same frame
+    if obs.frames.len() < v.before.frames.len() {
+        return Some(("frame-table-shrank".into(), format!("{} frames before, {} after", v.before.frames.len(), obs.frames.len())));
+    }
+    for (a, b) in v.before.frames.iter().zip(obs.frames.iter()) {
+        if identity_of(a) != identity_of(b) {
+            return Some(("id-renamed".into(), format!("id {} named [{}] before and [{}] after", a.id, identity_of(a), identity_of(b))));
+        }
+    }
+    // put order: frame i is what the i-th acknowledged insert predicts; chunks follow their document
+    for (f, r) in obs.frames.iter().zip(v.reference.frames.iter()) {
+        if f.uri.as_deref() != Some(r.uri_string().as_str()) || f.role != r.role || f.chunk_index != r.chunk_index {
+            return Some(("ids-not-in-put-order".into(), format!("frame {} is uri {:?} role {} chunk {:?}; insert number {} was uri {} role {} chunk {:?}",
+                f.id, f.uri, f.role, f.chunk_index, r.id, r.uri_string(), r.role, r.chunk_index)));
+        }
+        if let Some(doc) = r.doc {
+            let ci = r.chunk_index.unwrap_or(0) as u64;
+            if f.id != doc + 1 + ci || f.parent != Some(doc) {
+                return Some(("chunk-not-directly-after-document".into(), format!("chunk {} (index {ci}) of document {doc} has id {} parent {:?}", r.id, f.id, f.parent)));
+            }
+        }
+    }
+    // frame_by_uri agrees with the table: newest active frame with the URI, else newest frame with it
+    if v.index % 5 == 0 {
+        let uris: std::collections::BTreeSet<String> = obs.frames.iter().filter_map(|f| f.uri.clone()).collect();
+        for u in uris.iter().take(12) {
+            let want = obs.frames.iter().rev().find(|f| f.uri.as_deref() == Some(u.as_str()) && f.active())
+                .or_else(|| obs.frames.iter().rev().find(|f| f.uri.as_deref() == Some(u.as_str()))).map(|f| f.id);
+            let got = v.world.mem().frame_by_uri(u).ok().map(|f| f.id);
+            if got != want { return Some(("frame-by-uri-wrong-version".into(), format!("frame_by_uri({u}) = {got:?}, table says {want:?}"))); }
+        }
+    }
+    None
+}
+
+// ---------------------------------------------------------------------------------------
+// the shared main
+
+pub struct FamilyConfig<'a> {
+    pub property: &'a str,
+    pub rule: &'a str,
+    pub expect_branches: Vec<&'a str>,
+}
+
+fn ops_json(ops: &[Op]) -> Value { serde_json::to_value(ops).unwrap_or(Value::Null) }
+pub fn ops_from_json(v: &Value) -> Vec<Op> { serde_json::from_value(v.clone()).expect("ops in replay file") }
+
+fn record(sum: &mut Summary, args: &Args, drv: &mut Option<Driver>, oracle: &mut Oracle, label: &str, out: Outcome, shrink_budget_s: u64) {
+    for b in &out.branches { sum.branch(b); }
+    let canon = out.trace.join(";");
+    let nontrivial = out.acked_mutations >= 2 && out.branches.iter().any(|b| matches!(b.as_str(), "auto-commit" | "op-commit" | "op-reopen" | "op-crash" | "drop-commit"));
+    sum.case(&canon, nontrivial, || json!({"label": label, "ops": out.ops.len(), "acked_mutations": out.acked_mutations, "frames": out.final_frames,
+        "trace_tail": out.trace.iter().rev().take(3).collect::<Vec<_>>()}));
+    if let Some(d) = &out.dead {
+        sum.oracle_violation("implementation-failed", d, json!({"ops": ops_json(&out.ops)}));
+        return;
+    }
+    if out.oracle.is_none() && out.disagree.is_none() { return; }
+    // shrink to a minimal failing op list (same failure class)
+    let want_sig: Option<String> = out.oracle.as_ref().map(|o| o.0.clone());
+    let t0 = std::time::Instant::now();
+    let mut fails = |cand: &[Op]| -> bool {
+        if t0.elapsed().as_secs() > shrink_budget_s { return false; }
+        let o = run_history(Source::Fixed(cand), drv.as_mut(), oracle, false);
+        match &want_sig { Some(s) => o.oracle.as_ref().map(|x| &x.0) == Some(s), None => o.disagree.is_some() && o.oracle.is_none() }
+    };
+    let small = shrink_list(&out.ops, &mut fails);
+    let o2 = run_history(Source::Fixed(&small), drv.as_mut(), oracle, false);
+    let case = json!({"ops": ops_json(&small), "label": label});
+    let known: Vec<String> = args.extra.get("known").map(|s| s.split(',').map(|x| x.to_string()).collect()).unwrap_or_default();
+    let (oracle_res, disagree_res) = if o2.oracle.is_some() || o2.disagree.is_some() { (o2.oracle, o2.disagree) } else { (out.oracle, out.disagree) };
+    if let Some((sig, what, _, model_same)) = oracle_res {
+        if model_same && known.iter().any(|k| *k == sig) { sum.known_finding(&sig, &what, case); } else { sum.oracle_violation(&sig, &what, case); }
+    } else if let Some((what, m, i)) = disagree_res {
+        let cut = |s: &str| s.chars().take(1500).collect::<String>();
+        sum.disagreement(&what, case, &cut(&m), &cut(&i));
+    }
+}
+
+/// `main` of a Core-family bin
+pub fn run_family(cfg: FamilyConfig, prof: GenProfile, oracle: &mut Oracle) -> ! {
+    let args = parse_args();
+    let mut drv: Option<Driver> = if args.driver.as_os_str() == "none" { None } else { Some(Driver::spawn(&args.driver).expect("spawn driver")) };
+    let mut sum = Summary::new(cfg.property, &args, cfg.rule);
+    sum.expect_branches(&cfg.expect_branches);
+    if args.mode == "replay" {
+        let case = load_replay(args.replay_file.as_ref().expect("replay file"));
+        let input = case.get("input").unwrap_or(&case);
+        let ops = ops_from_json(&input["ops"]);
+        let out = run_history(Source::Fixed(&ops), drv.as_mut(), oracle, true);
+        if let Some((sig, what, _, _)) = &out.oracle { println!("ORACLE {sig}: {what}"); }
+        if let Some((w, m, i)) = &out.disagree { println!("DISAGREE {w}\n  model: {}\n  impl : {}", m.chars().take(600).collect::<String>(), i.chars().take(600).collect::<String>()); }
+        if let Some(d) = &out.dead { println!("DEAD {d}"); }
+        record(&mut sum, &args, &mut drv, oracle, "replay", out, 0);
+        sum.model_requests = drv.as_ref().map(|d| d.requests).unwrap_or(0);
+        sum.finish(&args);
+    }
+    let budget = if args.thorough { 180 } else { 40 };
+    for (label, ops) in prof.corpus.clone() {
+        let out = run_history(Source::Fixed(&ops), drv.as_mut(), oracle, false);
+        sum.branch("corpus");
+        record(&mut sum, &args, &mut drv, oracle, &label, out, budget);
+    }
+    let mut rng = Rng::new(args.seed);
+    for k in 0..prof.n_short {
+        if sum.oracle_violations.len() + sum.disagreements.len() >= 3 { break; }
+        let len = rng.usize(prof.short_len.0, prof.short_len.1);
+        let mut r = rng.fork();
+        let out = run_history(Source::Gen { rng: &mut r, prof: &prof, len, long: false }, drv.as_mut(), oracle, false);
+        record(&mut sum, &args, &mut drv, oracle, &format!("short-{k}"), out, budget);
+    }
+    for k in 0..prof.n_long {
+        if sum.oracle_violations.len() + sum.disagreements.len() >= 3 { break; }
+        let len = rng.usize(prof.long_len.0, prof.long_len.1);
+        let mut r = rng.fork();
+        let mut p = prof.clone();
+        // long histories: mostly puts, so that the WAL fills, checkpoints automatically and wraps
+        p.w_put = 70; p.w_update = 8; p.w_delete = 8; p.w_commit = 2; p.w_reopen = 2; p.w_crash = 2; p.w_vacuum = 1; p.w_doctor = 0;
+        p.w_skip = 1; p.w_finalize = 1; p.w_ticket = 0; p.w_batch = 2; p.w_readonly = 0;
+        let out = run_history(Source::Gen { rng: &mut r, prof: &p, len, long: true }, drv.as_mut(), oracle, false);
+        sum.branch("long-history");
+        record(&mut sum, &args, &mut drv, oracle, &format!("long-{k}"), out, budget);
+    }
+    sum.model_requests = drv.as_ref().map(|d| d.requests).unwrap_or(0);
+    sum.finish(&args);
+}
+
+/// helper for bins: BTreeMap of named counters an oracle wants to report
+pub type Counters = BTreeMap<String, u64>;
